@@ -334,6 +334,12 @@ static int insertNode(KSI_TreeBuilder *builder, KSI_TreeNode *node, int at) {
 		res = insertNode(builder, root, at + 1);
 		if (res != KSI_OK) {
 			KSI_pushError(builder->ctx, res, NULL);
+			/* Roll back: the joined node must not take the accepted subtrees with it. */
+			root->leftChild = NULL;
+			root->rightChild = NULL;
+			pSlot->parent = NULL;
+			node->parent = NULL;
+			builder->stack[at] = pSlot;
 			goto cleanup;
 		}
 
